@@ -78,7 +78,11 @@ pub fn fixed_programs() -> Vec<FixedProg> {
     ]
 }
 
-pub const INSPECTIONS: [&str; 15] = [
+pub const INSPECTIONS: [&str; 18] = [
+    // the generator is program state too: a refused call and a repeated value leave it alone
+    "PRINT RND(-1)",
+    "PRINT RND(0);FNA(RND(0-2))",
+    "PRINT RND(1",
     "",
     "PRINT X;I;A$",
     "PRINT 1/0",
@@ -330,6 +334,9 @@ fn stop_placements() -> Vec<(&'static str, Vec<&'static str>)> {
         ("inside FOR on one line", vec!["10 Y=1: FOR I=1 TO 2: {S}: NEXT I", "30 PRINT \"a\";X;Y;A$;I;A(1)"]),
         ("inside a subroutine under THEN with ELSE", vec!["10 Y=1: GOSUB 100: PRINT \"r\";X: GOTO 30", "30 PRINT \"a\";X;Y;A$;I;A(1): END", "100 IF Y THEN {S} ELSE PRINT \"no\"", "110 RETURN"]),
         ("nested IF, inner ELSE", vec!["10 Y=1", "20 IF Y THEN IF Y THEN {S} ELSE PRINT \"no\"", "30 PRINT \"a\";X;Y;A$;I;A(1)"]),
+        ("last statement of the last line", vec!["10 Y=1: X=2: PRINT \"a\";X;Y", "20 PRINT \"z\";: {S}"]),
+        ("last statement of the last line, under THEN", vec!["10 Y=1: X=2", "20 FOR I=1 TO 3: PRINT I;: NEXT I", "30 IF I=4 THEN {S}"]),
+        ("the whole program", vec!["10 {S}"]),
     ]
 }
 
